@@ -163,3 +163,43 @@ Proof.
     replace (N + q * N - N) with (q * N) by lia.
     rewrite (skipn_all2 (firstn N arr)) by lia. reflexivity.
 Qed.
+
+(* ---------------- the counter as the code keeps it ---------------- *)
+From Coq Require Import NArith ZifyN ZifyNat.
+
+Lemma wrap_small bits c : (BinNat.N.of_nat c < BinNat.N.pow 2 bits)%N -> wrap bits c = c.
+Proof.
+  intros H. unfold wrap. rewrite BinNat.N.mod_small by exact H. apply Nnat.Nat2N.id.
+Qed.
+
+Lemma pgw_step_w_exact bits N M s t :
+  cnt s < N -> (BinNat.N.of_nat N < BinNat.N.pow 2 bits)%N ->
+  pgw_step_w bits true N M s t = pgw_step N M s t.
+Proof.
+  intros Hc Hb. unfold pgw_step_w, pgw_step.
+  rewrite wrap_small.
+  - destruct (S (cnt s) =? N); reflexivity.
+  - eapply BinNat.N.le_lt_trans; [|exact Hb]. lia.
+Qed.
+
+Lemma pgw_step_cnt N M s t : 1 <= N -> cnt s < N -> cnt (fst (pgw_step N M s t)) < N.
+Proof.
+  intros HN Hc. unfold pgw_step. destruct (S (cnt s) =? N) eqn:E; simpl.
+  - lia.
+  - apply Nat.eqb_neq in E. lia.
+Qed.
+
+Lemma pgw_run_w_exact bits N M : 1 <= N -> (BinNat.N.of_nat N < BinNat.N.pow 2 bits)%N ->
+  forall arr s, cnt s < N -> pgw_run_w bits true N M s arr = pgw_run N M s arr.
+Proof.
+  intros HN Hb. induction arr as [|t r IH]; intros s Hc; [reflexivity|].
+  cbn [pgw_run_w pgw_run]. rewrite pgw_step_w_exact by assumption.
+  pose proof (pgw_step_cnt N M s t HN Hc) as Hc'.
+  destruct (pgw_step N M s t) as [s1 o]. cbn [fst] in Hc'. rewrite IH by exact Hc'. reflexivity.
+Qed.
+
+(* a running 8-bit counter looked at modulo N: a join of 3 releases on its 256th arrival, one token after the 85th
+   complete activation *)
+Lemma narrow_running_counter_differs :
+  releases (snd (pgw_run_w 8 false 3 1 pgw_init (seq 0 256))) <> releases (snd (pgw_run 3 1 pgw_init (seq 0 256))).
+Proof. vm_compute. discriminate. Qed.
